@@ -5,6 +5,7 @@ import (
 	"fmt"
 	"io"
 	"log/slog"
+	"math"
 	"os"
 	"path/filepath"
 	"sort"
@@ -324,6 +325,7 @@ func (ch *channel) receivedSegData(rsd recSegData) {
 		if err != nil {
 			log.Error("Failed to add segment data", "err", err)
 		}
+		isNewest := err == nil && ch.segTimesGen.isNewest(name, rsd.seqNr)
 		if updateMPD {
 			nowMS := time.Now().UnixNano() / 1_000_000
 			err := ch.segTimesGen.generateSegmentTimelineNrMPD(log, ch, nowMS)
@@ -341,15 +343,24 @@ func (ch *channel) receivedSegData(rsd recSegData) {
 			// Until it has, the duration of this segment tells how many segments of the track to keep.
 			maxNrBufSegs = ch.timeShiftBufferDepthS*trd.timeScaleOut/rsd.dur + 2
 		}
-		if maxNrBufSegs > 0 && rsd.seqNr >= maxNrBufSegs {
-			lastToRemove := rsd.seqNr - maxNrBufSegs
-			ch.segTimesGen.dropBefore(name, lastToRemove+1) // The segments to be removed cannot be listed later
-			err = ch.segTimesGen.dropOldFromMPD(log, lastToRemove+1)
+		if maxNrBufSegs > 0 {
+			firstToKeep := uint32(0)
+			if rsd.seqNr >= maxNrBufSegs {
+				firstToKeep = rsd.seqNr - maxNrBufSegs + 1
+			}
+			// Segments far above the newest number of the track are not part of its sequence any more. They are
+			// left from before the channel start shifted the numbers, or before the numbers of the source started again.
+			lastToKeep := uint32(math.MaxUint32)
+			if isNewest && rsd.seqNr < math.MaxUint32-maxNrBufSegs {
+				lastToKeep = rsd.seqNr + maxNrBufSegs
+			}
+			ch.segTimesGen.dropBefore(name, firstToKeep) // The segments to be removed cannot be listed later
+			err = ch.segTimesGen.dropOldFromMPD(log, firstToKeep)
 			if err != nil {
 				log.Error("Failed to drop old segments from MPD", "err", err)
 			}
 			firstListed, lastListed, isListed := ch.segTimesGen.listedRange()
-			removeOldSegments(log, filepath.Join(ch.dir, name), lastToRemove, func(seqNr uint32) bool {
+			removeSegmentsOutside(log, filepath.Join(ch.dir, name), firstToKeep, lastToKeep, func(seqNr uint32) bool {
 				return isListed && firstListed <= seqNr && seqNr <= lastListed
 			})
 		}
